@@ -27,7 +27,7 @@ func init() {
 		Run:            runC19,
 		Replay:         replayC19,
 		MinOutcomes:    3,
-		QuickBudget:    180 * time.Second,
+		QuickBudget:    300 * time.Second,
 		ThoroughBudget: 25 * time.Minute,
 	})
 }
@@ -174,6 +174,31 @@ func c19Body(p c19Params) func() explore.SchedOutcome {
 				}
 				obs = append(obs, "final="+describe(final, cands))
 			}
+		case "reload+poster":
+			// the operator has the board re-read from its file (SIGHUP / API) while a user posts: the post is kept
+			a, b := connect(1), connect(2)
+			rl, ok := wd.Srv.MessageBoard.(interface{ Reload() error })
+			if !ok {
+				fail("setup", "the board store has no Reload")
+				break
+			}
+			pid := a.Send(ref.Tx{Type: ref.TOldPostNews, Fields: []ref.Fld{ref.FS(ref.FData, "hello board")}})
+			vrt.GoNamed("reload", func() { _ = rl.Reload() })
+			vrt.EndSetup()
+			vrt.WaitQuiet()
+			if r := a.Reply(pid); r == nil || r.Err != 0 {
+				fail("post-refused", fmt.Sprint(r))
+			}
+			want := c19Post("n1", "hello board", now) + board0
+			id := b.Req(ref.TGetMsgs)
+			world.Quiet()
+			if got := fieldStr(b.Reply(id), ref.FData); got != want {
+				fail("post-lost", fmt.Sprintf("a post acknowledged while the board was being reloaded is not on the board a reader receives afterwards (%d bytes, want %d)", len(got), len(want)))
+			}
+			if disk, _ := os.ReadFile(filepath.Join(wd.ConfigDir, "MessageBoard.txt")); string(disk) != want {
+				fail("file-differs-from-board", fmt.Sprintf("file has %d bytes, want %d", len(disk), len(want)))
+			}
+			obs = append(obs, "reload")
 		case "delimiter":
 			// the documented NewsDelimiter option replaces the line between two posts; the post keeps its header and text
 			a, b := connect(1), connect(2)
@@ -377,6 +402,7 @@ func runC19(w *explore.Worker) {
 	for _, sz := range []int{0, 1, 511, 512, 513, 2000, 40000, 65000} {
 		jobs = append(jobs, job{c19Params{"sweep", sz}, 0})
 	}
+	jobs = append(jobs, job{c19Params{"reload+poster", 513}, 1})
 	jobs = append(jobs, job{c19Params{"post-fault", 100}, 0}, job{c19Params{"post-fault", 101}, 0}, job{c19Params{"delimiter", 100}, 0}, job{c19Params{"delimiter", 101}, 0})
 	if !w.Thorough {
 		jobs = append(jobs, job{c19Params{"readers+poster", 40000}, 1}, job{c19Params{"logins", 40000}, 1})
